@@ -1586,16 +1586,48 @@ def set_from_dict(original, updates):
         original[k] = updates[k]
 
 
+def _call_signature(args, kwargs, static_argnums=(), static_argnames=()):
+  """Hashable summary of call arguments, modelled on jit's own cache key.
+
+  Static arguments count by value, all other arguments by tree structure and
+  by the shape, dtype and weak type of their leaves.
+  """
+  if isinstance(static_argnames, str):
+    static_argnames = (static_argnames,)
+  static_argnums, static_argnames = tuple(static_argnums), tuple(static_argnames)
+
+  def leaf_signature(x):
+    if isinstance(x, (bool, int, float, complex)):
+      return (), str(jax.numpy.result_type(x)), True
+    if hasattr(x, 'shape') and hasattr(x, 'dtype'):
+      weak_type = bool(getattr(x, 'weak_type', False))
+      return tuple(x.shape), str(x.dtype), weak_type
+    return type(x)
+
+  static = tuple(
+      (i, x) for i, x in enumerate(args) if i in static_argnums
+  ) + tuple((k, kwargs[k]) for k in sorted(kwargs) if k in static_argnames)
+  dynamic = (
+      [x for i, x in enumerate(args) if i not in static_argnums],
+      {k: x for k, x in kwargs.items() if k not in static_argnames},
+  )
+  leaves, treedef = jax.tree_util.tree_flatten(dynamic)
+  return static, treedef, tuple(leaf_signature(x) for x in leaves)
+
+
 class _SideEffectCache(threading.local):
 
   def __init__(self):
     self.cache = {}
+    self.num_traces = 0
 
 
 def _restore_rng_counters(
-    side_effect_cache, scopes, fingerprint, capture_old_counts
+    side_effect_cache, scopes, key, fallback_key, capture_old_counts, traced
 ):
-  if fingerprint not in side_effect_cache.cache:
+  """Records (after a trace) or replays (after a cache hit) rng counter increments."""
+  cache = side_effect_cache.cache
+  if traced:
     capture_new_counts = jax.tree.map(
         lambda s: CountsHolder.make(s.rng_counters), scopes
     )
@@ -1604,18 +1636,23 @@ def _restore_rng_counters(
         capture_old_counts,
         capture_new_counts,
     )
-    side_effect_cache.cache[fingerprint] = capture_delta_counts
-  else:
-    updated_counts = jax.tree.map(
-        lambda x, y: x.add(y).unflat(),
-        side_effect_cache.cache[fingerprint],
-        capture_old_counts,
-    )
-    jax.tree.map(
-        lambda s, u: set_from_dict(s.rng_counters, u),
-        scopes,
-        updated_counts,
-    )
+    cache[key] = cache[fallback_key] = capture_delta_counts
+    return
+  # the increments of the trace that served this call; those of the latest
+  # trace for the same module when the call could not be attributed
+  capture_delta_counts = cache.get(key, cache.get(fallback_key))
+  if capture_delta_counts is None:
+    return
+  updated_counts = jax.tree.map(
+      lambda x, y: x.add(y).unflat(),
+      capture_delta_counts,
+      capture_old_counts,
+  )
+  jax.tree.map(
+      lambda s, u: set_from_dict(s.rng_counters, u),
+      scopes,
+      updated_counts,
+  )
 
 
 def jit(
@@ -1674,6 +1711,9 @@ def jit(
     static_argnums = (static_argnums,)
   if not isinstance(donate_argnums, Iterable):
     donate_argnums = (donate_argnums,)
+  # positions of the static arguments among the arguments of `inner` below
+  inner_static_argnums = tuple(i - 1 for i in static_argnums if i > 0)
+  inner_static_argnames = static_argnames
   # offset argnums by two because first argument in the original function is the
   # scope while jitted has 3 functions before the user arguments.
   static_argnums = (0,) + tuple(i + 2 for i in static_argnums if i > 0)
@@ -1697,6 +1737,7 @@ def jit(
   @functools.wraps(fn)
   def jitted(fingerprint, variable_groups, rng_groups, *args, **kwargs):
     scope_fn, repack_fn = jit_context.get()
+    side_effect_cache.num_traces += 1  # this body only runs when jax traces it
     hash_key = fingerprint[1]
     # fingerprint is only used to differentiate the cache signature
     # del fingerprint
@@ -1726,12 +1767,26 @@ def jit(
       )
 
       fingerprint = (mutable, module_hash_key)
+      # the counter increments are those of one trace: jax keeps a trace per
+      # static argument value and per input shape, not per fingerprint
+      side_effect_key = (
+          fingerprint,
+          _call_signature(
+              args, kwargs, inner_static_argnums, inner_static_argnames
+          ),
+      )
       capture_old_counts = jax.tree.map(
           lambda s: CountsHolder.make(s.rng_counters), scopes
       )
+      num_traces = side_effect_cache.num_traces
       res = jitted(fingerprint, variable_groups, rng_groups, *args, **kwargs)
       _restore_rng_counters(
-          side_effect_cache, scopes, fingerprint, capture_old_counts
+          side_effect_cache,
+          scopes,
+          side_effect_key,
+          fingerprint,
+          capture_old_counts,
+          traced=side_effect_cache.num_traces > num_traces,
       )
       return res
 
@@ -1831,8 +1886,6 @@ def fold_rngs(
   # this is impure but we use the fingerprint arg to differentiate between cases
   # where scope_fn or repack_fn actually produce non-identical results.
   fold_rngs_context = TransformContext[tuple[Callable, Callable]]()
-  # the rng counter deltas recorded below belong to this function only
-  side_effect_cache = _SideEffectCache()
 
   @functools.wraps(fn)
   def wrapped_fold_rngs(fingerprint, variable_groups, rng_groups, *args, **kwargs):
@@ -1866,16 +1919,13 @@ def fold_rngs(
       )
 
       fingerprint = (mutable, module_hash_key)
-      capture_old_counts = jax.tree.map(
-          lambda s: CountsHolder.make(s.rng_counters), scopes
-      )
-      res = wrapped_fold_rngs(
+      # Unlike `jit`, the function runs in Python on every call and advances
+      # the rng counters itself: there is nothing to replay (a recorded delta
+      # would be wrong as soon as a Python argument changes the number of
+      # draws).
+      return wrapped_fold_rngs(
           fingerprint, variable_groups, rng_groups, *args, **kwargs
       )
-      _restore_rng_counters(
-          side_effect_cache, scopes, fingerprint, capture_old_counts
-      )
-      return res
 
   return pack(
       inner_fold_rngs,
